@@ -706,6 +706,7 @@ func (r *yieldRewriter) rewriteReturnAndForSwitchInitStmtInYieldFun(body *ast.Bl
 			// the stmt may end up in a func lit (after a yield), where := would declare another n, so
 			// 	n, m := f()
 			// =>
+			// 	tmp := n
 			// 	tmp, m := f()
 			// 	n = tmp
 			if inYieldFunc() && n.Tok == token.DEFINE && c.Index() >= 0 && n.TokPos.IsValid() /*not generated*/ {
@@ -752,8 +753,11 @@ func (r *yieldRewriter) rewriteReturnAndForSwitchInitStmtInYieldFun(body *ast.Bl
 						assigns = append(assigns, X.Assign(token.ASSIGN, id, n.Rhs[i]))
 						continue
 					default:
+						// the temp is declared in front of the stmt (and only assigned by it), so that it has
+						// the type of n: v, ok := m[k] with ok of a named bool type, n, m := 1<<s, 2 with n uint8
 						r.tmpCnt++
 						tmp := X.Ident(cstRedefineVar + strconv.Itoa(r.tmpCnt))
+						c.InsertBefore(X.Define(tmp, id))
 						lhs = append(lhs, tmp)
 						assigns = append(assigns, X.Assign(token.ASSIGN, id, tmp))
 					}
